@@ -345,8 +345,8 @@ Definition opts0 := mkOpts false false false.
 (* what the constructor of the object does with the parse result *)
 Inductive postcode :=
 | PostOk           (* wellformed = ok *)
-| PostFirst        (* Value / URIValue: reads seq[0] when ok *)
-| PostDim          (* DimensionValue: seq[0] must be a text item; number conversion *)
+| PostFirst        (* Value / URIValue: read their first non-comment item when ok *)
+| PostDim          (* DimensionValue: the first non-comment item must be a text item; number conversion *)
 | PostColor        (* ColorValue: value.py:380-476 *)
 | PostVar          (* CSSVariable: 'ident' in store *)
 | PostMQ           (* MediaQuery: wellformed = ok; mediaType from the store *)
@@ -397,6 +397,9 @@ Fixpoint ml_filter (its : list item) (seen : list str) (final comments : list it
     else ml_filter r seen (it :: final) comments
   end.
 
+(* value._valueitem: the item that holds the value = the first one that is not a comment *)
+Definition value_item (its : list item) : option item := List.find (fun it => negb (is_comment_item it)) its.
+
 Inductive postres := PRet (wf : bool) (its : list item) (mtype : str) | PCrash.
 
 Definition post (pc : postcode) (r : result) : postres :=
@@ -405,20 +408,19 @@ Definition post (pc : postcode) (r : result) : postres :=
   let keep (w : bool) := PRet w (if w then its else []) [] in
   match pc with
   | PostOk => keep ok
-  | PostFirst => if ok then match its with [] => PCrash | _ => keep true end else keep false
-  | PostDim => if ok then match its with
-                          | IStr t _ :: _ => if is_comment_item (hd (IStr [] []) its) then PCrash else keep true
-                          | _ => PCrash
+  | PostFirst => keep (ok && match value_item its with Some _ => true | None => false end)
+  | PostDim => if ok then match value_item its with
+                          | Some (IStr _ _) => keep true
+                          | Some (IObj _ _ _ _ _) => PCrash          (* normalize(object): TypeError *)
+                          | None => keep false
                           end
                else keep false
   | PostColor =>
       if ok then
-        match its with
-        | [] => PCrash
-        | it0 :: _ =>
-          if eqs (item_ty it0) (s "FUNCTION") then keep (Nat.leb 3 (length (comp_sig its)))
-          else if is_comment_item it0 then PCrash       (* rgba is unbound: UnboundLocalError *)
-          else keep true
+        match value_item its with
+        | None => keep false
+        | Some it0 =>
+          if eqs (item_ty it0) (s "FUNCTION") then keep (Nat.leb 3 (length (comp_sig its))) else keep true
         end
       else keep false
   | PostVar => keep (ok && match store_get (s "ident") (r_store r) with Some _ => true | None => false end)
@@ -590,10 +592,8 @@ Section Loop.
           let st := set_stack st stack false in
           if l_stopnm st then LBreak (set_stopall (set_stash st (push_saved t (l_stash st))))
           else LBreak (set_wf st false)
-      | FParseErr stack =>                                                           (* l.579-589 *)
-          let st := set_stack st stack (l_strict st) in
-          if l_stopnm st then LBreak (set_stopall (set_stash st (push_pushed t (l_stash st))))
-          else LBreak (set_wf st false)
+      | FParseErr stack =>                                                           (* l.579-586: Missing is an error *)
+          LBreak (set_wf (set_stack st stack (l_strict st)) false)
       | FFound p stack =>
           process p t (set_found st stack (negb (p_mayend p)) (p_stopnm p || l_stopnm st))   (* l.595 *)
       | FSpin => LOut Spin
